@@ -34,8 +34,8 @@ def correspondence(ctx, meta, select, n_each, profile="any", tag="core"):
     hist = {}
     skipped = 0
     for name in meta["defs"]:
-        if not select(name):
-            continue
+        if not select(name) or not meta["defs"][name]["params"]:
+            continue          # parameterless definitions are literal tables used by the others
         fn = corecases.pyfun(name)
         if fn is None:
             ctx.broken.append("no Python callable for generated definition " + name)
